@@ -397,6 +397,9 @@ func cmdCheck(args []string) int {
 	raceEvery := 2 // C05: every second worker runs the -race build
 	if p.ID() != "C05" {
 		raceEvery = 4 // C03/C07 (second configuration): every fourth
+		if *tier != "thorough" {
+			raceEvery = 8
+		}
 	}
 	tmp, err := os.MkdirTemp(filepath.Join(verifDir(), ".work"), "run-")
 	if err != nil {
@@ -489,6 +492,15 @@ func cmdCheck(args []string) int {
 				bin := self
 				if raceBin != "" && w%raceEvery == raceEvery-1 {
 					bin = raceBin
+					if p.ID() != "C05" && *tier != "thorough" {
+						// quick tier, second configuration: the race build is several
+						// times slower, so these workers take a fifth of their share
+						for k, a := range args {
+							if a == "-to" {
+								args[k+1] = fmt.Sprint(total / 5)
+							}
+						}
+					}
 				}
 				cmd := exec.Command(bin, args...)
 				rlog := filepath.Join(tmp, fmt.Sprintf("race-w%d", w))
